@@ -223,4 +223,6 @@ theorem fixedText_ne_nil (units scale : Nat) : b (fixedText units scale) ≠ [] 
 theorem rawE_fixedText (units scale : Nat) : rawE (b (fixedText units scale)) = true :=
   rawE_word (allWord_fixedText units scale)
 
+theorem kw_asOpen : rawC (b " as (") = true := by decide +kernel
+
 end Qryn.Sql
